@@ -377,31 +377,34 @@ def handler(payload):
                 out.append(("tz", fam, rev, ""))
         return out
 
+    def dump_one(k, fam, rev, sub):
+        a = A(k, fam, rev, sub)
+        if k == "tz":
+            presets = DatabaseManager().db.load_db_cfg_file(get_db(fam, rev).get_file_path(DatabaseManager.TZ, "reg_spec"))
+            return {"kind": k, "presets": [[n, str(v)] for n, v in presets.items()],
+                    "size": TrustZone.get_preset_data_size(fam, rev)}
+        obj = a.fresh()
+        d = {"kind": k, "layout": describe(obj.registers if k == "xmcd" else a.regs(obj))}
+        d.update(area_params(a, obj))
+        return d
+
     def dump(kinds=None, part=None):
         import json
-        layouts, index, rows = [], {}, []
+        layouts, index, rows, errors = [], {}, [], []
         todo = [x for x in instances() if kinds is None or x[0] in kinds]
         if part is not None:
             todo = [x for i, x in enumerate(todo) if i % part[1] == part[0]]
-        errors = []
         for (k, fam, rev, sub) in todo:
-          try:
-              a = A(k, fam, rev, sub)
-              if k == "tz":
-                  presets = DatabaseManager().db.load_db_cfg_file(get_db(fam, rev).get_file_path(DatabaseManager.TZ, "reg_spec"))
-                  d = {"kind": k, "presets": [[n, str(v)] for n, v in presets.items()],
-                       "size": TrustZone.get_preset_data_size(fam, rev)}
-              else:
-                  obj = a.fresh()
-                  d = {"kind": k, "layout": describe(obj.registers if k == "xmcd" else a.regs(obj))}
-                  d.update(area_params(a, obj))
-              key = json.dumps(d, sort_keys=True)
-              if key not in index:
-                  index[key] = len(layouts)
-                  layouts.append(d)
-              rows.append([k, fam, rev, sub, index[key]])
-          except Exception as ex:  # noqa -- an area that cannot even be constructed is reported as a failing input by the check
-            errors.append([k, fam, rev, sub, f"{type(ex).__name__}: {str(ex)[:300]}"])
+            try:
+                d = dump_one(k, fam, rev, sub)
+            except Exception as ex:  # noqa -- an area that cannot even be constructed is reported as a failing input by the check
+                errors.append([k, fam, rev, sub, f"{type(ex).__name__}: {str(ex)[:300]}"])
+                continue
+            key = json.dumps(d, sort_keys=True)
+            if key not in index:
+                index[key] = len(layouts)
+                layouts.append(d)
+            rows.append([k, fam, rev, sub, index[key]])
         return {"layouts": layouts, "instances": rows, "errors": errors}
 
     # ------------------------------------------------------------------ canonical observables
